@@ -11,7 +11,7 @@ SPEC = dict(
           "occupancy, B-factor, element and charge columns hold (element is inferred from columns 13-14). The parser model is compared "
           "with the real parser on every edited file; edited-vs-original runs of the real pipeline under {default, --protonate-all, -k} "
           "must agree on every record and on the .pka text; --protonate-all must not change any pKa; feeding the program's own "
-          "hydrogens back with -k must reproduce the results for amino-acid structures.",
+          "hydrogens back with -k must reproduce the results for amino-acid structures. Lifted to the whole program (Props/Program.lean, on Program.run: parser, top-up, set-up pipeline, scoring): program_unused_records (ignorable residues and non-ATOM/HETATM/MODEL/TER records change nothing the program computes - no atom, hydrogen, group, determinant or pKa) and program_reads_used_fields (two texts whose parsed records agree in the used fields give the same results: serial numbers, occupancies and B-factors never influence predictions); Program.run is compared with the real program on the texts this check runs, including -k inputs with hydrogens closer than 1.5 A.",
     note="That nothing downstream reads occupancy/B-factor/serial is established by the edited-vs-original runs (the theorem covers the "
          "parser). The protonate-all and keep-protons round-trip clauses are metamorphic checks of the real pipeline, not theorems; "
          "hydrogens inserted at a chain start can capture the N+ tag (the theorem's hypothesis 'inside a chain' excludes exactly that).",
